@@ -371,6 +371,9 @@ class Machine:
             return F(self.fresh_real("inf"))
         if c.startswith('"'):
             return Str(unescape(c[1:c.rindex('"')]))
+        if c.startswith('b"'):
+            raw = c[2:c.rindex('"')]
+            return Opaque("bytes", bytes(raw, "utf-8").decode("unicode_escape").encode("latin-1"))
         if c == "()":
             return UNIT
         if c.startswith("'"):
